@@ -273,8 +273,36 @@ pub fn run(tier: Tier) -> Report {
             }
         }
     }
-    rep.add_transitions(n_dq);
-    rep.add_states(n_dq / 2);
+    // sequences of three quantizer updates around both limits (a clamped update followed by an update
+    // in the other direction), against the reference decoder
+    let mut n_tr = 0u64;
+    for q in [1u8, 2, 3, 29, 30, 31] {
+        for a in [-2i8, -1, 1, 2] {
+            for b in [-2i8, -1, 1, 2] {
+                for c in [-2i8, -1, 1, 2] {
+                    let mbs: Vec<Mb> = [a, b, c]
+                        .iter()
+                        .enumerate()
+                        .map(|(i, &dq)| {
+                            let mut blocks: [Blk; 6] = std::array::from_fn(|k| Blk::dc(100 + k as u8));
+                            blocks[i].ev = vec![ev_auto(true, 0, 10, false)];
+                            blocks[5].ev = vec![ev_auto(true, 2, -10, false)];
+                            Mb::Coded { kind: Kind::IntraQ, dquant: dq, mvd: vec![], blocks }
+                        })
+                        .collect();
+                    let pic = Pic { hdr: shdr(48, 16, 0, 0, q, 0), mbs };
+                    let mut d = Dec::new(1);
+                    let mut st = CmpStats::default();
+                    n_tr += 1;
+                    if let Err(f) = d.step(&pic, "C11", &mut st) {
+                        rep.violation_lazy(&format!("C11/quantizer-update-sequence[{}]", f.sig.rsplit('/').next().unwrap_or("")), || (format!("PQUANT {q}, DQUANT sequence ({a},{b},{c}): {}", f.what), d.replay("dquant sequence")));
+                    }
+                }
+            }
+        }
+    }
+    rep.add_transitions(n_dq + n_tr);
+    rep.add_states(n_dq / 2 + n_tr);
 
     let g = stats.lock().unwrap();
     rep.extra("samples_compared", json!(g.samples));
